@@ -363,6 +363,17 @@ def explained(tag, v, impl, regs):
 
 def classify(line, impl, why):
     w = line.split(" ")
+    if w[0] == "q" and len(w) == 3 and (not why or why.startswith("model and implementation differ")):
+        # httpHeaderParseQuotedString alone: a repair of the two quoted-string findings changes these answers
+        try:
+            v = unhx(w[2])
+        except ValueError:
+            return None
+        if b'\\"' in v or b"\\\\" in v:
+            return "C29-quoted-pair"
+        if b"\t" in v:
+            return "C29-htab-in-quoted-string"
+        return None
     if w[0] != "p" or len(w) != 2:
         return None
     try:
@@ -678,17 +689,17 @@ def cases(rng, tier):
     for s in strings_over(b"019-+ x", 4 if thorough else 2):
         add("p", b"max-age=" + s + b", public")
     #  i: the splitter alone
-    for s in strings_over(b'a,"\\ \x0b', 7 if thorough else 5):
+    for s in strings_over(b'a,"\\ \x0b', 6 if thorough else 5):
         add("i", s)
     #  n: httpHeaderParseInt alone
-    for s in strings_over(b"019-+ x", 6 if thorough else 4):
+    for s in strings_over(b"019-+ x", 5 if thorough else 4):
         add("n", s)
     for n in BOUNDARY_NUMS:
         for d in (-1, 0, 1):
             for sign in (b"", b"-", b"+"):
                 add("n", sign + str(max(0, n + d)).encode())
     #  q: httpHeaderParseQuotedString alone, every len
-    for s in strings_over(b'"\\a\t\r\n ', 5 if thorough else 3):
+    for s in strings_over(b'"\\a\t\r\n ', 4 if thorough else 3):
         if s[:1] == b'"' or len(s) <= 1:
             for n in range(len(s) + 1):
                 add("q", s, n)
